@@ -44,7 +44,7 @@ class Methods:
         if isinstance(obj, RegDict):
             if name == 'get':
                 key = S.const_value(env, a0) if isinstance(a0, Str) else None
-                if key is not None and ('haskey', id(obj), key) in env.facts:
+                if key is not None and ('haskey', obj.rid, key) in env.facts:
                     return S.any_str(env)
                 d = args[1] if len(args) > 1 else RegNone(obj.name, key)
                 val = S.any_str(env)
@@ -295,6 +295,8 @@ class Methods:
             return None
         if p == '':
             return True
+        if (('nostartswith' if front else 'noendswith'), s.sid, p) in env.facts:
+            return False
         if s.hi is not None and s.hi < len(p):
             return False
         definite = (s.lo or 0) >= len(p)
